@@ -8,11 +8,18 @@ TRACE_MODULE = "C07_Trace"
 EXHAUSTIVE = True
 RULE = ("a scenario is one call of readselection(readset, k, preferred_source_ids, bridging): every multiset of <= 4 reads over 4 "
         "variant indices x cap 1..3 x every set of preferred reads enumerated by TLC (Gen_C07; every 10th in quick), both bridging "
-        "settings, plus seeded random read sets (<= 40 reads, <= 15 indices, k <= 6, gaps, duplicates, preferred sources); "
-        "non-trivial = at least one read is left out (the cap binds)")
+        "settings, plus seeded random read sets (<= 40 reads, <= 15 indices, k <= 6, gaps, duplicates, preferred sources) and read sets "
+        "whose reads share their leftmost variant and continue to different variants further right (pairs / gapped reads, deeper "
+        "than the cap); the variant indices of every scenario are placed on coordinates by a position map: anywhere (index*10), first "
+        "variant on 0-based position 0 (VCF POS 1) with steps 1/10/1000, last variant on the largest int position 2^31-1, both, "
+        "irregular steps from origin 0/1/2; whatshap phase runs (H1 hook) with depth far above the cap, optionally with the first "
+        "site on POS 1 of its contig and with read pairs whose first mates share one site and whose second mates land on different "
+        "sites; non-trivial = at least one read is left out (the cap binds)")
 ASSUMPTIONS = [
     "TLC; ReadSelect.tla is the reading of the statement: coverage = span coverage (first..last covered variant) in the read set's own index space",
     "families larger than k are outside the statement (FamilyCap clause only for |family| <= k)",
+    "the verdict is taken in the index space of the read set (spans first..last covered variant), so it does not depend on the coordinates; "
+    "coordinates are bounded by the C++ int of Read.add_variant (0 .. 2^31-1); in whole runs only the lower boundary (POS 1) is generated",
 ]
 
 
@@ -70,7 +77,89 @@ def scenarios(ctx):
                 w["opts"]["vcf_only"] = True
                 w["opts"]["max_coverage"] = rng.choice([1, 2, 3, 4])
         scs.append({"kind": "pipeline", "world": w})
+    # ---- coordinate boundaries (decided by a sub-generator per scenario, the main stream above is left as it was) ----
+    import random
+    for sc in scs:
+        if sc.get("kind") == "pipeline":
+            decorate_world(random.Random(sc["world"]["seed"] * 31 + 7), sc["world"])
+        else:
+            r2 = random.Random(sc["qual"] * 7919 + len(sc["reads"]))
+            sc["posmap"] = rand_posmap(r2, max(max(r) for r in sc["reads"]))
+    # ---- read sets whose reads share their leftmost variant and continue to different variants further right
+    #      (read pairs / reads with gaps), the shared variant at a boundary coordinate or anywhere ----
+    for _ in range(400 if q else 8000):
+        nidx = rng.randint(3, 12)
+        k = rng.randint(1, 5)
+        anchor = rng.randint(1, nidx - 1) if rng.random() < 0.4 else 1
+        reads = []
+        for _ in range(rng.randint(k + 1, 2 * k + 6)):
+            if rng.random() < 0.8:
+                b = rng.randint(anchor + 1, nidx)
+                e = rng.randint(b, nidx)
+                cols = [anchor] + [c for c in range(b, e + 1) if c in (b, e) or rng.random() < 0.6]
+            else:
+                a = rng.randint(1, nidx - 1)
+                b = rng.randint(a + 1, nidx)
+                cols = [a] + [c for c in range(a + 1, b) if rng.random() < 0.5] + [b]
+            reads.append(cols)
+        pref = [i + 1 for i in range(len(reads)) if rng.random() < 0.2] if rng.random() < 0.4 else []
+        scs.append({"reads": reads, "k": k, "pref": pref, "bridging": rng.random() < 0.6, "qual": rng.randrange(1000),
+                    "posmap": rand_posmap(rng, nidx)})
+    ctx.notes["posmaps"] = {m: sum(1 for sc in scs if sc.get("posmap", {}).get("kind") == m) for m in POSMAPS}
+    ctx.notes["pipeline_first_variant_at_POS1"] = sum(1 for sc in scs if sc.get("kind") == "pipeline" and sc["world"].get("first_at_zero"))
     return scs
+
+
+INT_MAX = 2 ** 31 - 1        # Read.add_variant(int position, ...): the largest coordinate a read can carry
+POSMAPS = ("x10", "zero", "top", "both", "steps")
+
+
+def rand_posmap(rng, nidx):
+    """how the variant indices 1..nidx of a scenario become coordinates (strictly increasing): anywhere (x10), the first variant on
+    0-based position 0 (VCF POS 1), the last variant on the largest representable position, both, or irregular steps from a
+    small origin (0, 1, 2)"""
+    kind = rng.choice(POSMAPS + ("zero", "zero"))
+    return {"kind": kind, "step": rng.choice([1, 1, 10, 1000]), "origin": rng.choice([0, 0, 1, 2]), "seed": rng.randrange(10 ** 6)}
+
+
+def positions_of(pm, nidx):
+    """coordinate of every variant index 1..nidx (dict)"""
+    import random
+    kind, step = pm["kind"], pm["step"]
+    if kind == "x10":
+        return {c: c * 10 for c in range(1, nidx + 1)}
+    if kind == "zero":
+        return {c: (c - 1) * step for c in range(1, nidx + 1)}
+    if kind == "top":
+        return {c: INT_MAX - (nidx - c) * step for c in range(1, nidx + 1)}
+    if kind == "both":
+        out = {c: (c - 1) * step for c in range(1, nidx + 1)}
+        out[nidx] = INT_MAX
+        return out
+    r = random.Random(pm["seed"])
+    out, p = {}, pm["origin"]
+    for c in range(1, nidx + 1):
+        out[c] = p
+        p += r.choice([1, 1, 2, 7, 100, 10 ** 6])
+    return out
+
+
+def decorate_world(r2, w):
+    """coordinate boundary and shared-leftmost-variant decorations of a pipeline world (additive, in place)"""
+    if w["opts"].get("vcf_only"):
+        return
+    n = len(w["chroms"][0]["sites"])
+    if r2.random() < 0.4:
+        w["first_at_zero"] = True          # the first site on the very first base of its contig (VCF POS 1)
+    if r2.random() < 0.5 and n >= 3:
+        # read pairs whose first mates all cover one site (the first one, mostly) and whose second mates land on different
+        # sites further right, deeper than the cap
+        anchor = 0 if r2.random() < 0.7 else r2.randint(0, n - 3)
+        for s in w["samples"]:
+            for b in range(anchor + 2, n):
+                if r2.random() < 0.8:
+                    w["reads"].append({"sample": s, "chrom": 0, "hap": r2.randint(0, 1), "first": anchor, "last": b,
+                                       "gap": [anchor, b], "copies": r2.randint(2, 2 + w["opts"]["max_coverage"])})
 
 
 def h1_to_familycap(h):
@@ -92,16 +181,18 @@ def drive(sc):
     qr = random.Random(sc.get("qual", 0))
     rs = ReadSet()
     pref = set(sc["pref"])
+    pm = sc.get("posmap") or {"kind": "x10", "step": 10, "origin": 0, "seed": 0}
+    posof = positions_of(pm, max(max(r) for r in sc["reads"]))
     for i, cols in enumerate(sc["reads"], start=1):
         rd = Read(f"r{i}", 50, 1 if i in pref else 0, 0)
         for c in cols:
-            rd.add_variant(c * 10, qr.randint(0, 1), qr.choice([1, 10, 30, 30, 40]))
+            rd.add_variant(posof[c], qr.randint(0, 1), qr.choice([1, 10, 30, 30, 40]))
         rs.add(rd)
     # ReadSet keeps insertion order until sorted; map back by name
     sel = readselection(rs, sc["k"], {1} if pref else None, sc["bridging"])
     names = [int(rs[i].name[1:]) for i in sel]
     return [{"ev": "Select", "reads": sc["reads"], "k": sc["k"], "sel": sorted(names),
-             "pref": sorted(pref), "bridging": sc["bridging"]}]
+             "pref": sorted(pref), "bridging": sc["bridging"], "posmap": pm["kind"]}]
 
 
 def nontrivial(sc, events):
@@ -113,8 +204,9 @@ def nontrivial(sc, events):
 
 def signature(sc, events, clause):
     if sc.get("kind") == "pipeline":
-        return f"pipeline family={len(sc['world']['samples'])} k={sc['world']['opts'].get('max_coverage')}"
-    return f"preferred={'yes' if sc['pref'] else 'no'} bridging={sc['bridging']}"
+        return (f"pipeline family={len(sc['world']['samples'])} k={sc['world']['opts'].get('max_coverage')}"
+                + (" first_at_POS1" if sc["world"].get("first_at_zero") else ""))
+    return f"preferred={'yes' if sc['pref'] else 'no'} bridging={sc['bridging']} posmap={(sc.get('posmap') or {}).get('kind', 'x10')}"
 
 
 def selftest_corrupt(events):
@@ -135,8 +227,10 @@ MANIFEST = {
             "coverage counted once, SelectOK at termination, termination under fairness) and exhibits the pinned code's double "
             "counting when the preferred reads are not subtracted first. TLC enumerates every multiset of <= 4 reads over 4 indices x "
             "cap x preferred set; each is run through the real readselection (built from the working tree) and the recorded result is "
-            "judged by TLC against the relation; seeded random larger sets; the reads whatshap phase hands to the solver per family "
-            "(H1 hook, pipeline runs) are judged against the family cap.",
+            "judged by TLC against the relation; seeded random larger sets and sets of reads sharing their leftmost variant; every set "
+            "is placed on coordinates by a position map (first variant on position 0, last variant on 2^31-1, irregular steps); the "
+            "reads whatshap phase hands to the solver per family (H1 hook, pipeline runs, also with the first site on POS 1 and with "
+            "pairs sharing their first mate's site) are judged against the family cap.",
     "note": "trusted: TLC, ReadSelect.tla, driver; exhaustive only within the stated bounds",
     "technique": "TLA+ relation + TLC model checking of the greedy design + TLC trace validation of recorded selections (spec-enumerated inputs)",
 }
